@@ -122,3 +122,34 @@ Theorem C09_log_tables_sound : forall nr umax max_count decode castc,
   (forall a b, 0 <= a <= umax -> 0 <= b <= umax -> a + b <= nr -> merge_cell nr umax max_count decode castc a b = a + b).
 Proof. exact CmsLogFloat.float_tables_sound. Qed.
 Print Assumptions C09_log_tables_sound.
+
+(* ---------------- source tie (linear) ----------------
+   the body of _merge_linear's loop over the cells (countmin.py l.455-458) and its two counter updates (l.460-461),
+   as regenerated from the source AST on this run (generated/KernelsCms.v; parameters: the two cells read, uint_maxval;
+   result: the cell written, truncated to the array's uint32), are the modelled merge_cell / counter sums *)
+From Sketchnu Require KernelsCms KernelTieCmsMerge.
+Theorem C09_lin_source_tie :
+  (forall mine other : Z, 0 <= mine <= CmsLinear.cap -> 0 <= other <= CmsLinear.cap ->
+     KernelsCms.gen_merge_linear_cell mine other CmsLinear.cap = CmsLinear.merge_cell mine other) /\
+  (forall x y : Z, 0 <= x -> 0 <= y -> x + y < 2^64 ->
+     KernelsCms.gen_merge_linear_n_added x y = x + y /\ KernelsCms.gen_merge_linear_n_records x y = x + y).
+Proof. exact (conj KernelTieCmsMerge.tie_merge_linear_cell KernelTieCmsMerge.tie_merge_linear_counters). Qed.
+Print Assumptions C09_lin_source_tie.
+
+(* the merged state assembled from the generated pieces, cell by cell *)
+Theorem C09_lin_source_tie_state : forall a b : CmsLinear.sk, CmsLinearProofs.Rng a -> CmsLinearProofs.Rng b ->
+  0 <= CmsLinear.n_added a -> 0 <= CmsLinear.n_added b -> CmsLinear.n_added a + CmsLinear.n_added b < 2^64 ->
+  0 <= CmsLinear.n_records a -> 0 <= CmsLinear.n_records b -> CmsLinear.n_records a + CmsLinear.n_records b < 2^64 ->
+  (forall r c, CmsLinear.cms (CmsLinear.merge a b) r c =
+               KernelsCms.gen_merge_linear_cell (CmsLinear.cms a r c) (CmsLinear.cms b r c) CmsLinear.cap) /\
+  CmsLinear.n_added (CmsLinear.merge a b) = KernelsCms.gen_merge_linear_n_added (CmsLinear.n_added a) (CmsLinear.n_added b) /\
+  CmsLinear.n_records (CmsLinear.merge a b) = KernelsCms.gen_merge_linear_n_records (CmsLinear.n_records a) (CmsLinear.n_records b).
+Proof. exact KernelTieCmsMerge.tie_merge_linear. Qed.
+Print Assumptions C09_lin_source_tie_state.
+
+Example C09_lin_source_tie_nonvacuous :
+  map (fun mo => KernelsCms.gen_merge_linear_cell (fst mo) (snd mo) CmsLinear.cap)
+      [(0, 0); (3, 4); (CmsLinear.cap - 1, 1); (CmsLinear.cap - 1, 2); (CmsLinear.cap, CmsLinear.cap); (0, CmsLinear.cap)]
+  = [0; 7; CmsLinear.cap; CmsLinear.cap; CmsLinear.cap; CmsLinear.cap] /\
+  KernelsCms.gen_merge_linear_n_added 5 7 = 12 /\ KernelsCms.gen_merge_linear_n_records 1 2 = 3.
+Proof. vm_compute. repeat split; reflexivity. Qed.
